@@ -93,13 +93,17 @@ def ff_getters(repo, res, ty, rule="FF"):
             for r in A.roots(v):
                 pass
             ok = getter in A.show(k) and getter in A.show(v) and v[0] == "proj" and v[2] == (2 if idf == "get" else 1) and A.contains(k, lambda x: x[0] == "proj" and x[1] == v[1] and x[2] == 0)
-        ins = [c for c in P.find_calls(fn.body, methods={"insert"})]
+        # the outer key: first argument of the insert into the result, or first component of the `(state, row map)` pair collected into it
+        outer = [(c["args"][0], envs.get(id(c))) for c in P.find_calls(fn.body, methods={"insert"}) if c["args"]]
+        for t in A.walk(fn.body):
+            if t["k"] == "Tuple" and len(t["elems"]) == 2 and t is not (tups[0] if tups else None) and getter in A.reach_calls(t["elems"][1], envs.get(id(t))) and getter not in A.reach_calls(t["elems"][0], envs.get(id(t))):
+                outer.append((t["elems"][0], envs.get(id(t))))
         state_ok = False
-        for c in ins:
-            a = [A.resolve(x, envs.get(id(c))) for x in c["args"]]
-            if a and a[0][0] == "elem" and a[0][1][0] == "param":
+        for oe, oenv in outer:
+            a0 = A.resolve(oe, oenv)
+            if a0[0] == "elem" and P.peel(a0[1])[0] in ("param", "mcall") and any(r[0] == "param" for r in A.roots(a0)):
                 st_arg = [g for g in P.find_calls(fn.body, methods={getter})]
-                state_ok = bool(st_arg) and A.resolve(st_arg[0]["args"][0], envs.get(id(st_arg[0]))) == a[0]
+                state_ok = bool(st_arg) and A.resolve(st_arg[0]["args"][0], envs.get(id(st_arg[0]))) == a0
         res.check(ok and state_ok, rule, f"{rule}:{fq}", f"cell key = id of the row's own text, value = the row's own target, outer key = the state the rows were read from", fn.loc())
     # completion tables: level index = the symbol's fallback level; key = source state
     for fq, variant, idf in (("dfa::DFA::get_literal_completions", "Literal", "get"), ("dfa::DFA::get_command_completions", "Command", "get_index_of"),
